@@ -90,8 +90,8 @@ def run(rep, tier, parts=("jit", "ctor", "interp", "cranelift")):
             frs = [f for f in jitmodel.frame_templates(jm, *flags) if f["ok"]]
             good, found = len(frs) == 1, {}
             if good:
-                ins = X.decode(frs[0]["prologue"])
-                ms = X.run(ins, entry_machine(jm))
+                ins = X.decode_lenient(frs[0]["prologue"])
+                ms = X.run_lenient(ins, entry_machine(jm))
                 good = len(ms) == 1
                 if good:
                     m = ms[0]
@@ -112,7 +112,7 @@ def run(rep, tier, parts=("jit", "ctor", "interp", "cranelift")):
                     good = r1 == ("v", want_r1[flags], 64) and top is not None and alloc is not None and top - alloc >= STACK + 8 and \
                         m.regs[X.R10] == ("v", "MEM_PTR", 64) and stores == exp_stores
                     # epilogue mirrors the prologue
-                    epi = X.decode(frs[0]["epilogue"])
+                    epi = X.decode_lenient(frs[0]["epilogue"])
                     pushes = [i.reg for i in ins if i.mn == "push"]
                     pops = [i.reg for i in epi if i.mn == "pop"]
                     subs = [i for i in ins if i.mn == "alu" and i.op == "sub" and i.dst == ("reg", X.RSP)]
